@@ -352,7 +352,7 @@ func r103(c *Ctx) {
 	licensed := func(b *ssa.BasicBlock) bool {
 		var r, k, u bool
 		for _, ce := range dominatingCondsFrom(b) {
-			if cm, ok := asCmp(ce.cond, ce.taken); ok && cm.op == token.NEQ {
+			if cm, ok := ce.asCmp(); ok && cm.op == token.NEQ {
 				for _, pr := range [][2]ssa.Value{{cm.x, cm.y}, {cm.y, cm.x}} {
 					if isNilConst(pr[1]) && isLoadOfField(pr[0], rolloutF) {
 						r = true
@@ -409,7 +409,7 @@ func r103(c *Ctx) {
 	for _, cs := range append(callsTo(uses, al), callsTo(uses, vp)...) {
 		nonEmpty := false
 		for _, ce := range dominatingConds(cs.instr.Block()) {
-			if cm, ok := asCmp(ce.cond, ce.taken); ok && cm.op == token.NEQ {
+			if cm, ok := ce.asCmp(); ok && cm.op == token.NEQ {
 				if s, ok := constString(cm.y); ok && s == "" && cm.x == ssa.Value(val) {
 					nonEmpty = true
 				}
